@@ -94,6 +94,8 @@ func (v *Vue) interpolateToWriter(ctx VueContext, w io.Writer, input string) err
 				} else if fe := (*funcCallError)(nil); errors.As(evalErr, &fe) {
 					// (a function that fails inside the expression fails the render: !fail(x), fail(x)>1)
 					return fmt.Errorf("in expression '{{ %s }}': %w", expr, evalErr)
+				} else if neg, ok := v.negatedUndefined(ctx, expr); ok {
+					val = neg
 				}
 			}
 		}
